@@ -207,6 +207,9 @@ func c12Arithmetic(p *Prog, r *Report) {
 	}
 	for _, k := range sortedObKeys(e.obs) {
 		ob := e.obs[k]
+		if ob.ok && strings.Contains(ob.reason, "[over-strict") {
+			r.Viol("R12.3-exact-guard", ob.key, p.pos(ob.in.Pos()), "the overflow guard of this "+ob.kind+" is stricter than the type's range: "+ob.reason+" — a value at the 64-bit boundary that is representable (the minimum/maximum itself) is rejected, so its printed form does not parse back")
+		}
 		if ob.ok {
 			r.OK(rule, ob.key, p.pos(ob.in.Pos()), "in range: "+ob.reason)
 		} else {
